@@ -56,6 +56,7 @@ type Bases struct {
 	Noth *kindOf[proto.Nothing]
 	Pt   *kindOf[proto.Point]
 	// the inferring enum column (names on the Go side, numbers on the wire)
+	JSON  *kindOf[string]
 	EnT8  *kindOf[string]
 	EnT16 *kindOf[string]
 }
@@ -82,6 +83,7 @@ func NewBases() *Bases {
 		Bool: boolKind(), Str: String(), FS3: FixedString(3),
 		FS16: Fixed[[16]byte]("FixedString(16)", 16, col[[16]byte, *proto.ColFixedStr16]()),
 		UUID: UUID(), Noth: Nothing(), Pt: Point(),
+		JSON:  JSONStr(),
 		EnT8:  EnumText(8, []string{"a", "bee", "", "z z"}, []int{1, 2, -128, 127}),
 		EnT16: EnumText(16, []string{"x", "yy", "neg"}, []int{0, 300, -32768}),
 	}
@@ -191,6 +193,7 @@ func Universe(depth int) []Kind {
 	over(&u, b.UUID, depth)
 	over(&u, b.Noth, depth)
 	over(&u, b.Pt, depth)
+	over(&u, b.JSON, depth)
 	over(&u, b.EnT8, depth)
 	over(&u, b.EnT16, depth)
 	overCmp(&u, b.U8, depth)
